@@ -173,7 +173,7 @@ pub fn front_end(text: &str) -> FrontEnd {
                     let resolver = PackageResolver::inline();
                     let mut program = Program::new();
                     let mut cache = ModuleCache::new();
-                    Compiler::compile(ast, &HashMap::new(), &mut cache, &resolver, &mut program, quiver_core::types::NIL, &HashMap::new(), &b, None).map(|_| ())
+                    { let nil_t = program.register_type(quiver_core::types::Type::nil()); Compiler::compile(ast, &HashMap::new(), &mut cache, &resolver, &mut program, nil_t, &HashMap::new(), &b, None).map(|_| ()) }
                 }));
                 match cr { Err(p) => { fe.compile = "panic"; fe.viol = Some(("compile-panic".into(), crate::pool::panic_msg(&p))); } Ok(Err(_)) => fe.compile = "err", Ok(Ok(())) => fe.compile = "ok" }
             }
